@@ -236,6 +236,10 @@ func (p *parser) parseAstTree() (root *astNode, err error) {
 	}
 	p.tokens = p.tokens[:n]
 
+	if len(p.tokens) == 0 {
+		return nil, p.invalidExprErr(0)
+	}
+
 	if err = p.check(); err != nil {
 		return nil, err
 	}
@@ -434,6 +438,10 @@ func (p *parser) errWithPos(err error, idx int) error {
 
 func (p *parser) pos(i int) string {
 	A := []rune(p.source)
+
+	if len(A) == 0 {
+		return " []"
+	}
 
 	if i < 0 || i >= len(A) {
 		i = 0
